@@ -33,17 +33,20 @@ def Row.setElems : Row → Name → List FV
     | some l => l
     | none => (List.range ((lookupName n k).getD []).length).map fun i => FV.str ('k' :: (toString i).toList)
 
-/-- an `ast.Symbols`: a row plus the current element of every open set cursor -/
+/-- an `ast.Symbols`: a row plus, per set symbol, what is left of the cursor opened on it most
+    recently (head = current element; the state survives the loop that opened the cursor, exactly as
+    the cursor objects of a Symbols implementation do) -/
 structure Env where
   row : Row
-  cur : List (Name × FV)
+  cur : List (Name × List FV)
 
 def Env.value (e : Env) (n : Name) : FV :=
   match lookupName n e.cur with
-  | some v => v
-  | none => e.row.scalar n
+  | some (v :: _) => v
+  | _ => e.row.scalar n
 
-def Env.bind (e : Env) (n : Name) (v : FV) : Env := { e with cur := (n, v) :: e.cur }
+/-- `OpenSetCursor(n)` positioned on `vs` (also: the cursor after `Next` / `SeekToString`) -/
+def Env.openAt (e : Env) (n : Name) (vs : List FV) : Env := { e with cur := (n, vs) :: e.cur }
 
 /-! ### what the Symbols methods return (harness/c10_query.go implements the same table) -/
 
@@ -113,21 +116,28 @@ def binCompare {α} (site : String) (lt eq : α → α → Bool) (op : BinOp) (l
     let b ← deref (site ++ ": *rightResult") r
     .ok (cmpOp lt eq op a b)
 
-/-- loops over a cursor -/
-def anyLoop (f : FV → Outcome Bool) : List FV → Outcome Bool
-  | [] => .ok false
-  | v :: rest => do if (← f v) then .ok true else anyLoop f rest
+/-- `for cursor.IsValid() { if predicate.EvalBool(s) { return true }; cursor.Next() }; return false` -/
+def anyLoop (f : Env → Outcome (Bool × Env)) (n : Name) : List FV → Env → Outcome (Bool × Env)
+  | [], e => .ok (false, e.openAt n [])
+  | v :: rest, e => do
+    let (b, e1) ← f (e.openAt n (v :: rest))
+    if b then .ok (true, e1) else anyLoop f n rest e1
 
-def allLoop (f : FV → Outcome Bool) : List FV → Outcome Bool
-  | [] => .ok true
-  | v :: rest => do if (← f v) then allLoop f rest else .ok false
+/-- `for cursor.IsValid() { if !predicate.EvalBool(s) { return false }; cursor.Next() }; return true` -/
+def allLoop (f : Env → Outcome (Bool × Env)) (n : Name) : List FV → Env → Outcome (Bool × Env)
+  | [], e => .ok (true, e.openAt n [])
+  | v :: rest, e => do
+    let (b, e1) ← f (e.openAt n (v :: rest))
+    if b then allLoop f n rest e1 else .ok (false, e1)
 
-def countLoop (f : Row → Outcome Bool) : List Row → Outcome Nat
-  | [] => .ok 0
-  | r :: rest => do
+/-- OpenSetCursorForQuery: the linked rows (by position) the sub-query accepts; each linked row is
+    evaluated through a fresh Symbols -/
+def filterKids (f : Row → Outcome Bool) : Nat → List Row → Outcome (List FV)
+  | _, [] => .ok []
+  | i, r :: rest => do
     let b ← f r
-    let n ← countLoop f rest
-    .ok (if b then n + 1 else n)
+    let more ← filterKids f (i + 1) rest
+    .ok (if b then FV.str ('k' :: (toString i).toList) :: more else more)
 
 /-- `for _, rightNode := range node.right.values { right := rightNode.Eval…; if left != nil && right != nil { if *left == *right …` -/
 def inLoop {α} (site : String) (eq : α → α → Bool) (left : Option α) : List (Option α) → Outcome Bool
@@ -174,172 +184,202 @@ def isNilBoolOperand (e : Env) : T → Bool
   | _ => false
 
 mutual
-def evalBool (seekable : Bool) : Env → T → Outcome Bool
-  | _, .boolC b => .ok b
+def evalBool (seekable : Bool) : Env → T → Outcome (Bool × Env)
+  | e, .boolC b => .ok (b, e)
   | e, .symT k n =>
     if k == .bool || k == .anyType then
       -- result := s.EvalBool(name); return result != nil && *result
       let r := symEvalBool (e.value n)
-      if r.isSome then deref "SymbolNode.EvalBool: *result" r else .ok false
+      if r.isSome then do let b ← deref "SymbolNode.EvalBool: *result" r; .ok (b, e) else .ok (false, e)
     else noMethod "EvalBool"
-  | e, .notE x => do let v ← evalBool seekable e x; .ok (!v)
-  | e, .andE l r => do if !(← evalBool seekable e l) then .ok false else evalBool seekable e r
-  | e, .orE l r => do if (← evalBool seekable e l) then .ok true else evalBool seekable e r
+  | e, .notE x => do let (v, e1) ← evalBool seekable e x; .ok (!v, e1)
+  | e, .andE l r => do
+    let (a, e1) ← evalBool seekable e l
+    if !a then .ok (false, e1) else evalBool seekable e1 r
+  | e, .orE l r => do
+    let (a, e1) ← evalBool seekable e l
+    if a then .ok (true, e1) else evalBool seekable e1 r
   | e, .binBool op l r =>
     -- the null rule first: isNilBoolOperand is a type switch on *BoolSymbolNode / *AnyTypeSymbolNode
     let leftNil := isNilBoolOperand e l
     let rightNil := isNilBoolOperand e r
     if leftNil || rightNil then
-      if op == .neq then .ok (leftNil != rightNil) else .ok false
+      if op == .neq then .ok (leftNil != rightNil, e) else .ok (false, e)
     else do
-      let a ← evalBool seekable e l
-      let b ← evalBool seekable e r
+      let (a, e1) ← evalBool seekable e l
+      let (b, e2) ← evalBool seekable e1 r
       match op with
-      | .eq => .ok (a == b)
-      | .neq => .ok (a != b)
-      | _ => .ok false
+      | .eq => .ok (a == b, e2)
+      | .neq => .ok (a != b, e2)
+      | _ => .ok (false, e2)
   | e, .binDt op l r => do
-    let a ← evalDatetime seekable e l
-    let b ← evalDatetime seekable e r
-    binCompare "BinaryDatetimeExprNode.EvalBool" (fun (x y : Int) => decide (x < y)) (· == ·) op a b
+    let (a, e1) ← evalDatetime seekable e l
+    let (b, e2) ← evalDatetime seekable e1 r
+    let v ← binCompare "BinaryDatetimeExprNode.EvalBool" (fun (x y : Int) => decide (x < y)) (· == ·) op a b
+    .ok (v, e2)
   | e, .binFlt op l r => do
-    let a ← evalFloat64 seekable e l
-    let b ← evalFloat64 seekable e r
-    binCompare "BinaryFloat64ExprNode.EvalBool" (fun (x y : Rat) => decide (x < y)) (· == ·) op a b
+    let (a, e1) ← evalFloat64 seekable e l
+    let (b, e2) ← evalFloat64 seekable e1 r
+    let v ← binCompare "BinaryFloat64ExprNode.EvalBool" (fun (x y : Rat) => decide (x < y)) (· == ·) op a b
+    .ok (v, e2)
   | e, .binInt op l r => do
-    let a ← evalInt64 seekable e l
-    let b ← evalInt64 seekable e r
-    binCompare "BinaryInt64ExprNode.EvalBool" (fun (x y : Int) => decide (x < y)) (· == ·) op a b
+    let (a, e1) ← evalInt64 seekable e l
+    let (b, e2) ← evalInt64 seekable e1 r
+    let v ← binCompare "BinaryInt64ExprNode.EvalBool" (fun (x y : Int) => decide (x < y)) (· == ·) op a b
+    .ok (v, e2)
   | e, .binStr op l r => do
-    let a ← evalString seekable e l
-    let b ← evalString seekable e r
+    let (a, e1) ← evalString seekable e l
+    let (b, e2) ← evalString seekable e1 r
     if a.isNone || b.isNone then
-      if op == .neq then .ok (a.isSome != b.isSome)
-      else if op == .notContains || op == .notIContains then .ok true
-      else .ok false
+      if op == .neq then .ok (a.isSome != b.isSome, e2)
+      else if op == .notContains || op == .notIContains then .ok (true, e2)
+      else .ok (false, e2)
     else do
       let x ← deref "BinaryStringExprNode.EvalBool: *leftResult" a
       let y ← deref "BinaryStringExprNode.EvalBool: *rightResult" b
       match op with
-      | .contains => .ok (containsSub y x)
-      | .notContains => .ok (!containsSub y x)
-      | op => .ok (cmpOp charsLt (· == ·) op x y)
+      | .contains => .ok (containsSub y x, e2)
+      | .notContains => .ok (!containsSub y x, e2)
+      | op => .ok (cmpOp charsLt (· == ·) op x y, e2)
   | e, .isNil s op =>
     let isNil := symIsNil (e.value s.symbolName)
     match op with
-    | .eq => .ok isNil
-    | .neq => .ok (!isNil)
-    | _ => .ok true
+    | .eq => .ok (isNil, e)
+    | .neq => .ok (!isNil, e)
+    | _ => .ok (true, e)
   | e, .intBtw l lo hi => do
-    let a ← evalInt64 seekable e l
-    if a.isNone then .ok false else
-    let b ← evalInt64 seekable e lo
-    if b.isNone then .ok false else
-    let c ← evalInt64 seekable e hi
-    betweenEval "Int64BetweenExprNode.EvalBool" (fun (x y : Int) => decide (x < y)) a b c
+    let (a, e1) ← evalInt64 seekable e l
+    if a.isNone then .ok (false, e1) else
+    let (b, e2) ← evalInt64 seekable e1 lo
+    if b.isNone then .ok (false, e2) else
+    let (c, e3) ← evalInt64 seekable e2 hi
+    let v ← betweenEval "Int64BetweenExprNode.EvalBool" (fun (x y : Int) => decide (x < y)) a b c
+    .ok (v, e3)
   | e, .fltBtw l lo hi => do
-    let a ← evalFloat64 seekable e l
-    if a.isNone then .ok false else
-    let b ← evalFloat64 seekable e lo
-    if b.isNone then .ok false else
-    let c ← evalFloat64 seekable e hi
-    betweenEval "Float64BetweenExprNode.EvalBool" (fun (x y : Rat) => decide (x < y)) a b c
+    let (a, e1) ← evalFloat64 seekable e l
+    if a.isNone then .ok (false, e1) else
+    let (b, e2) ← evalFloat64 seekable e1 lo
+    if b.isNone then .ok (false, e2) else
+    let (c, e3) ← evalFloat64 seekable e2 hi
+    let v ← betweenEval "Float64BetweenExprNode.EvalBool" (fun (x y : Rat) => decide (x < y)) a b c
+    .ok (v, e3)
   | e, .dtBtw l lo hi => do
-    let a ← evalDatetime seekable e l
-    if a.isNone then .ok false else
-    let b ← evalDatetime seekable e lo
-    if b.isNone then .ok false else
-    let c ← evalDatetime seekable e hi
-    betweenEval "DatetimeBetweenExprNode.EvalBool" (fun (x y : Int) => decide (x < y)) a b c
+    let (a, e1) ← evalDatetime seekable e l
+    if a.isNone then .ok (false, e1) else
+    let (b, e2) ← evalDatetime seekable e1 lo
+    if b.isNone then .ok (false, e2) else
+    let (c, e3) ← evalDatetime seekable e2 hi
+    let v ← betweenEval "DatetimeBetweenExprNode.EvalBool" (fun (x y : Int) => decide (x < y)) a b c
+    .ok (v, e3)
   | e, .inStr l arr => do
-    let a ← evalString seekable e l
-    inLoop "InStringArrayExprNode.EvalBool" (· == ·) a (arr.map litString)
+    let (a, e1) ← evalString seekable e l
+    let v ← inLoop "InStringArrayExprNode.EvalBool" (· == ·) a (arr.map litString)
+    .ok (v, e1)
   | e, .inInt l arr => do
-    let a ← evalInt64 seekable e l
-    inLoop "InInt64ArrayExprNode.EvalBool" (· == ·) a (arr.map litInt)
+    let (a, e1) ← evalInt64 seekable e l
+    let v ← inLoop "InInt64ArrayExprNode.EvalBool" (· == ·) a (arr.map litInt)
+    .ok (v, e1)
   | e, .inFlt l arr => do
-    let a ← evalFloat64 seekable e l
-    inLoop "InFloat64ArrayExprNode.EvalBool" (· == ·) a (arr.map litFlt)
+    let (a, e1) ← evalFloat64 seekable e l
+    let v ← inLoop "InFloat64ArrayExprNode.EvalBool" (· == ·) a (arr.map litFlt)
+    .ok (v, e1)
   | e, .inDt l arr => do
-    let a ← evalDatetime seekable e l
-    inLoop "InDatetimeArrayExprNode.EvalBool" (· == ·) a (arr.map litDt)
-  | e, .allOf n p => allLoop (fun v => evalBool seekable (e.bind n v) p) (e.row.setElems n)
+    let (a, e1) ← evalDatetime seekable e l
+    let v ← inLoop "InDatetimeArrayExprNode.EvalBool" (· == ·) a (arr.map litDt)
+    .ok (v, e1)
+  | e, .allOf n p => allLoop (fun e' => evalBool seekable e' p) n (e.row.setElems n) e
   | e, .anyOf n p seek =>
     if seek && seekable then do
-      -- EvalBoolWithSeek: rightResult := node.right.EvalString(s); SeekToString(*rightResult); IsValid → EvalBool
-      let rr ← (match p with
-        | .binStr _ _ r => evalString seekable e r
+      -- cursor := s.OpenSetCursor(name); EvalBoolWithSeek: rightResult := node.right.EvalString(s);
+      -- if rightResult != nil { SeekToString(*rightResult); if IsValid { return node.EvalBool(s) } }; return false
+      let e0 := e.openAt n (e.row.setElems n)
+      let (rr, e1) ← (match p with
+        | .binStr _ _ r => evalString seekable e0 r
         | _ => noMethod "EvalBoolWithSeek")
       if rr.isSome then do
         let v ← deref "BinaryStringExprNode.EvalBoolWithSeek: *rightResult" rr
-        match seekFrom v (e.row.setElems n) with
-        | [] => .ok false
-        | x :: _ => evalBool seekable (e.bind n x) p
-      else .ok false
-    else anyLoop (fun v => evalBool seekable (e.bind n v) p) (e.row.setElems n)
-  | e, .isEmptySet s => .ok (e.row.setElems s.symbolName).isEmpty
+        let rem := seekFrom v (e.row.setElems n)
+        let e2 := e1.openAt n rem
+        match rem with
+        | [] => .ok (false, e2)
+        | _ :: _ => evalBool seekable e2 p
+      else .ok (false, e1)
+    else anyLoop (fun e' => evalBool seekable e' p) n (e.row.setElems n) e
+  | e, .isEmptySet s =>
+    let vs := e.row.setElems s.symbolName
+    .ok (vs.isEmpty, e.openAt s.symbolName vs)
   | e, .isEmptySetQ s q => do
-    let n ← countLoop (fun r => evalBool seekable ⟨r, []⟩ q) (e.row.kids s.symbolName)
-    .ok (n == 0)
+    let vs ← filterKids (fun r => do let (b, _) ← evalBool seekable ⟨r, []⟩ q; .ok b) 0 (e.row.kids s.symbolName)
+    .ok (vs.isEmpty, e.openAt s.symbolName vs)
   | e, .query p _ _ _ => evalBool seekable e p
   | _, _ => noMethod "EvalBool"
 
-def evalString (seekable : Bool) : Env → T → Outcome (Option (List Char))
-  | _, .lit l =>
+def evalString (seekable : Bool) : Env → T → Outcome (Option (List Char) × Env)
+  | e, .lit l =>
     match l with
     | .dt _ => noMethod "EvalString"
-    | l => .ok (litString l)
+    | l => .ok (litString l, e)
   | e, .symT k n =>
     match k with
-    | .string | .anyType =>
-      .ok (symEvalString (e.value n))
+    | .string | .anyType => .ok (symEvalString (e.value n), e)
     | .int64 =>
       -- int64Val := s.EvalInt64(name); if int64Val != nil { FormatInt(*int64Val) }
       let r := symEvalInt64 (e.value n)
-      if r.isSome then do let i ← deref "Int64SymbolNode.EvalString: *int64Val" r; .ok (some (formatInt i)) else .ok none
+      if r.isSome then do let i ← deref "Int64SymbolNode.EvalString: *int64Val" r; .ok (some (formatInt i), e) else .ok (none, e)
     | .float64 =>
       let r := symEvalFloat64 (e.value n)
-      if r.isSome then do let q ← deref "Float64SymbolNode.EvalString: *float64Val" r; .ok (some (formatRat q)) else .ok none
+      if r.isSome then do let q ← deref "Float64SymbolNode.EvalString: *float64Val" r; .ok (some (formatRat q), e) else .ok (none, e)
     | _ => noMethod "EvalString"
   | e, .i2f w => evalString seekable e w
   | e, .strFunc x => do
     -- result := self.expr.EvalString(s); if result == nil { return nil }; val := self.f(*result)
-    let r ← evalString seekable e x
-    if r.isNone then .ok none else do
+    let (r, e1) ← evalString seekable e x
+    if r.isNone then .ok (none, e1) else do
       let s ← deref "StringFuncNode.EvalString: *result" r
-      .ok (some (s.map Char.toUpper))
+      .ok (some (s.map Char.toUpper), e1)
   | e, .countSet s =>
     -- result := node.EvalInt64(s); if result == nil { return nil }; FormatInt(*result)
     let r : Option Int := some (countPlain e s.symbolName)
-    if r.isNone then .ok none else do let i ← deref "CountSetExprNode.EvalString: *result" r; .ok (some (formatInt i))
+    if r.isNone then .ok (none, e) else do
+      let i ← deref "CountSetExprNode.EvalString: *result" r
+      .ok (some (formatInt i), e.openAt s.symbolName [])
   | e, .countSetQ s q => do
-    let n ← countLoop (fun r => evalBool seekable ⟨r, []⟩ q) (e.row.kids s.symbolName)
-    let r : Option Int := some (n : Int)
-    if r.isNone then .ok none else do let i ← deref "CountSetExprNode.EvalString: *result" r; .ok (some (formatInt i))
+    let vs ← filterKids (fun r => do let (b, _) ← evalBool seekable ⟨r, []⟩ q; .ok b) 0 (e.row.kids s.symbolName)
+    let r : Option Int := some (vs.length : Nat)
+    if r.isNone then .ok (none, e) else do
+      let i ← deref "CountSetExprNode.EvalString: *result" r
+      .ok (some (formatInt i), e.openAt s.symbolName [])
   | _, _ => noMethod "EvalString"
 
-def evalInt64 (seekable : Bool) : Env → T → Outcome (Option Int)
-  | _, .lit (.int i) => .ok (some i)
-  | e, .symT k n => if k == .int64 || k == .anyType then .ok (symEvalInt64 (e.value n)) else noMethod "EvalInt64"
-  | e, .countSet s => .ok (some (countPlain e s.symbolName))
+def evalInt64 (seekable : Bool) : Env → T → Outcome (Option Int × Env)
+  | e, .lit (.int i) => .ok (some i, e)
+  | e, .symT k n => if k == .int64 || k == .anyType then .ok (symEvalInt64 (e.value n), e) else noMethod "EvalInt64"
+  | e, .countSet s => .ok (some (countPlain e s.symbolName), e.openAt s.symbolName [])
   | e, .countSetQ s q => do
-    let n ← countLoop (fun r => evalBool seekable ⟨r, []⟩ q) (e.row.kids s.symbolName)
-    .ok (some (n : Int))
+    let vs ← filterKids (fun r => do let (b, _) ← evalBool seekable ⟨r, []⟩ q; .ok b) 0 (e.row.kids s.symbolName)
+    .ok (some ((vs.length : Nat) : Int), e.openAt s.symbolName [])
   | _, _ => noMethod "EvalInt64"
 
-def evalFloat64 (seekable : Bool) : Env → T → Outcome (Option Rat)
-  | _, .lit (.flt q) => .ok (some q)
-  | e, .symT k n => if k == .float64 || k == .anyType then .ok (symEvalFloat64 (e.value n)) else noMethod "EvalFloat64"
+def evalFloat64 (seekable : Bool) : Env → T → Outcome (Option Rat × Env)
+  | e, .lit (.flt q) => .ok (some q, e)
+  | e, .symT k n => if k == .float64 || k == .anyType then .ok (symEvalFloat64 (e.value n), e) else noMethod "EvalFloat64"
   | e, .i2f w => do
     -- result := node.wrapped.EvalInt64(s); if result == nil { return nil }; float64(*result)
-    let r ← evalInt64 seekable e w
-    if r.isNone then .ok none else do let i ← deref "Int64ToFloat64Node.EvalFloat64: *result" r; .ok (some (i : Rat))
+    let (r, e1) ← evalInt64 seekable e w
+    if r.isNone then .ok (none, e1) else do let i ← deref "Int64ToFloat64Node.EvalFloat64: *result" r; .ok (some (i : Rat), e1)
   | _, _ => noMethod "EvalFloat64"
 
-def evalDatetime (seekable : Bool) : Env → T → Outcome (Option Int)
-  | _, .lit (.dt t) => .ok (some t)
-  | e, .symT k n => if k == .datetime || k == .anyType then .ok (symEvalDatetime (e.value n)) else noMethod "EvalDatetime"
+def evalDatetime (seekable : Bool) : Env → T → Outcome (Option Int × Env)
+  | e, .lit (.dt t) => .ok (some t, e)
+  | e, .symT k n => if k == .datetime || k == .anyType then .ok (symEvalDatetime (e.value n), e) else noMethod "EvalDatetime"
   | _, _ => noMethod "EvalDatetime"
 end
+
+/-- `Query.EvalBool(symbols)` with fresh Symbols over a row -/
+def evalRow (seekable : Bool) (t : T) (row : Row) : Outcome Bool :=
+  match evalBool seekable ⟨row, []⟩ t with
+  | .ok (b, _) => .ok b
+  | .err e => .err e
+  | .panic p => .panic p
 
 end StorageModel.C10
